@@ -1,6 +1,7 @@
 //! implrun: implementation-side drivers for the correspondence checks.
 //!
 //! usage: implrun <driver> [args] < cases > results     (one result line per case line)
+mod activepeers;
 mod codec;
 mod codegen;
 mod fabric;
@@ -19,6 +20,7 @@ fn main() {
     // panics are reported per case as `PANIC`; keep stderr quiet but counted
     util::install_panic_hook();
     match args[1].as_str() {
+        "activepeers" => activepeers::run(),
         "codec" => codec::run(),
         "codegen" => codegen::run(),
         "simnet" => simnet::run(),
